@@ -210,8 +210,12 @@ func PreClose(site int, ch interface{}) {
 	t.addNote(note{kind: noteClosed, obj: id, keep: ch})
 }
 
-// Select decides which receive case of a rewritten select fires: the index
-// into chans, or -1 for the default clause.
+// SendCase marks an entry of Select's channel list as a send case.
+type SendCase struct{ Ch interface{} }
+
+// Select decides which case of a rewritten select fires: the index into
+// chans (receive cases are passed as the channel itself, send cases wrapped
+// in SendCase), or -1 for the default clause.
 //
 //go:norace
 func Select(site int, hasDefault bool, chans ...interface{}) int {
@@ -231,6 +235,13 @@ func Select(site int, hasDefault bool, chans ...interface{}) int {
 func ptSelect(hasDefault bool, chans []interface{}) int {
 	for {
 		for i, c := range chans {
+			if sc, ok := c.(SendCase); ok {
+				id, v := chanID(sc.Ch)
+				if id != 0 && v.Len() < v.Cap() {
+					return i
+				}
+				continue
+			}
 			id, v := chanID(c)
 			if id == 0 {
 				continue
@@ -303,6 +314,9 @@ func atomicPoint(site int) {
 	t.post(opAtomic, site)
 	t.call()
 }
+
+// AtomicPoint is the scheduling point in front of a statement that calls a method of a sync/atomic type.
+func AtomicPoint(site int) { atomicPoint(site) }
 
 func AtomicAddUint32(site int, p *uint32, d uint32) uint32 {
 	atomicPoint(site)
